@@ -77,6 +77,43 @@ CLAIMS['C16'] = dict(
          'every constant, both signs, 0 and +-1e9 therefore decides every integer (range, monotone, odd follow); score_to_imp passes the sum.',
     ref='4/C16')
 
+CLAIMS['C12'] = dict(
+    technique='static analysis: JSON-type inference of the writer record vs the shipped schema; typed-field flow (raw JSON value must not reach a library-typed slot); writer/reader key, type and converter agreement; abstract run of the 2-state streaming envelope',
+    text='Writer record typed expression by expression and compared with log_format.schema.json ($ref resolved, required keys unconditional); '
+         'each key serialises the type the reader field declares, each reader field is computed from exactly its key(s) through the inverse '
+         'converter (inverse tables: C15); no raw JSON value reaches a slot declared Player/Pair/Suit/Vul/Bid/Card/Contract/Hands; the literals '
+         'of open/_write_content/close form valid JSON around 0..3 records; tags agree with the parser. Not decided: escaping of arbitrary '
+         'Unicode (delegated to json.dumps, call site checked).',
+    ref='4/C12')
+CLAIMS['C13'] = dict(
+    technique='static analysis: typestate (open -> write* -> close on every exit incl. exceptional) by a syntax-directed walk of Server.run; path summaries of __enter__/__exit__/close/_write_content; error-discipline scan',
+    text='The log writer is released by a construct covering the exceptional edges (with-item whose __exit__ must-calls close() and does not '
+         'swallow, file entered before the writer) - explicit open()/close() with raising statements in between is reported; close writes the '
+         'closing literal on every path; json.dumps precedes the first stream write; the per-board write closes the loop body; no except '
+         'handler in the session code; ILLEGAL from take_bid always leads to raise; parsers never return None.',
+    ref='4/C13')
+CLAIMS['C14'] = dict(
+    technique='static analysis: encoders/decoders folded inside the analyser on a covering family of deal shapes x first seats against canonical-form oracles; structural sibling agreement for the numpy pair; slice tiling under three permutations',
+    text='PARTIAL. Decided on the covering family (balanced, a void in each suit position, double voids, 13-card suits, freaks, high/low swapped, '
+         'partial deals) x 4 first seats: PBN text canonical and read back, 52-slot vectors, JSON lists ascending under N/E/S/W; numpy pair by '
+         'structure (int(card) <-> int_to_card, same seat); dealer slices tile the pack under any permutation. NOT decided: equality for each '
+         'of the 5.4e28 individual deals (runtime value).',
+    ref='4/C14')
+CLAIMS['C17'] = dict(
+    technique='static analysis: writer/schema/reader agreement for JSON settings; syntax-directed rules on PbnParser.parse_stream (yield guards, separator class, buffer reset, %-lines); parse_board folded on tag-order x layout x alphabet buffers; typed-field flow + converter table for parse_board_settings',
+    text='JSON settings: same triangle as C12 on JsonBoardSettingWriter / convert_board_setting / board_setting_format.schema.json. PBN: every '
+         'yield guarded by non-emptiness (blank-line runs, leading/trailing blank lines), separator pattern fullmatches LF/CRLF/whitespace-only '
+         'and no content line, buffers reset unconditionally, %-lines consumed before extraction; parse_board maps each tag to its first value '
+         'verbatim for all orders of the 4 tags x extra tags/table rows x LF/CRLF x values over the alphabet incl. runs of spaces; the four tags '
+         'go through Hands.convert_pbn / Player[] / Vul.str_to_vul. Not decided: full PBN commentary grammar.',
+    ref='4/C17')
+CLAIMS['C18'] = dict(
+    technique='static analysis: path summary of write_board_result (tag order, separator, value provenance), sibling agreement with the reader separator pattern, write_line folded on every length class, who-may-write the stream, writer lines folded through parse_board',
+    text='15 mandatory tags in order on every path; a line fullmatching the reader\'s separator pattern follows the Result tag; the stream is '
+         'written only by write_line, whose chunks are <= 255 characters for every length 1..1100 (text used only through len/slice); tag values '
+         'by provenance incl. passed-out arms; the 15 written tag lines are read back verbatim by parse_board for values over the alphabet.',
+    ref='4/C18')
+
 PENDING_REASON = 'check under construction in this session (static rules designed in DESIGN.md section 4, not yet registered)'
 
 
